@@ -9,7 +9,7 @@ RULE = ('cases: histories of up to 60 events over 3 thread ids x ~12 codes drawn
         'decodable ordinary name, the ten kernel trace-string/data names, known-but-undecoded names, ids unknown to '
         'the table) x the four qualifiers; built from single-event ops and macro ops (nested pair, crossing pair, '
         're-opened START, stray END, same code on two threads, START..NONE..END window). Arguments are projected onto '
-        'each decoder\'s domain. Oracle (declarative, after EVERY step, over the whole history): a trace is emitted '
+        'each decoder\'s domain; the pairing object is built with an empty or an already populated thread map. Oracle (declarative, after EVERY step, over the whole history): a trace is emitted '
         'iff (END with an open START of the same thread+code and the code is decodable) or (NONE/ALL of a decodable '
         'code; continuation fragments may emit 0 or 1); an END window satisfies E_min <= ktraces <= E_max as '
         'subsequences, starts with the most recent open START, ends with the END, no duplicates, same thread, same '
